@@ -550,6 +550,35 @@ def pred_typeface_word_end(v, params):
 core.PREDICATES["c06_typeface_word_end"] = pred_typeface_word_end
 
 
+def pred_cmu_styled_number(v, params):
+    """Known finding C06-cmu-styled-number-per-digit: CMU brailles a number that has a typeface digit by digit.  Holds when, in the
+    CANONICAL MathML of the witness, every lost literal is (part of) an mn that carries a typeface: its own mathvariant / mathematical digits,
+    or -- because set_mathml folded 'styled number , plain number' into one mn with the first number's typeface -- that of its neighbour."""
+    import xml.etree.ElementTree as ET
+    w = v["witness"]
+    if w["cfg"]["code"] != "CMU" or w.get("history"):
+        return False
+    tree = B.from_xml(w["mathml"])
+    with B.Session(w["cfg"]) as sess:
+        kind, lost, _, res = judge_tree(sess, tree)
+    if kind != "lost-operand" or res is None:
+        return False
+    try:
+        root = ET.fromstring(res[0]["v"])
+    except ET.ParseError:
+        return False
+    styled_text = []
+    for e in root.iter():
+        if e.tag.split("}")[-1] == "mn":
+            t = e.text or ""
+            if e.get("mathvariant") not in (None, "normal", "monospace") or not t.isascii():
+                styled_text.append(B.fold_digits(t))
+    return all(any(B.count_verbatim(l, t) for t in styled_text) for l in lost)
+
+
+core.PREDICATES["c06_cmu_styled_number"] = pred_cmu_styled_number
+
+
 def replay(witness):
     cfg = witness["cfg"]
     tree = B.from_xml(witness["mathml"])
